@@ -675,18 +675,58 @@ func ResolveEntityNames(source []byte) []byte {
 
 var htmlSpace = []byte("%20")
 
+// unescapeAndResolve unescapes backslash-escaped punctuations and resolves numeric and
+// entity references in a single pass: an escaped '&' never starts a reference and the
+// characters a reference resolves to are not interpreted again.
+func unescapeAndResolve(source []byte) []byte {
+	cob := NewCopyOnWriteBuffer(source)
+	limit := len(source)
+	n := 0
+	for i := 0; i < limit; {
+		c := source[i]
+		if c == '\\' && i < limit-1 && IsPunct(source[i+1]) {
+			cob.Write(source[n:i])
+			_ = cob.WriteByte(source[i+1])
+			i += 2
+			n = i
+			continue
+		}
+		if c == '&' {
+			j := i + 1
+			for j < limit && (IsAlphaNumeric(source[j]) || source[j] == '#') {
+				j++
+			}
+			if j < limit && source[j] == ';' {
+				ref := source[i : j+1]
+				resolved := ResolveNumericReferences(ref)
+				if len(resolved) == len(ref) && &resolved[0] == &ref[0] {
+					resolved = ResolveEntityNames(ref)
+				}
+				if !(len(resolved) == len(ref) && &resolved[0] == &ref[0]) {
+					cob.Write(source[n:i])
+					cob.Write(resolved)
+					i = j + 1
+					n = i
+					continue
+				}
+			}
+		}
+		i++
+	}
+	if cob.IsCopied() {
+		cob.Write(source[n:])
+	}
+	return cob.Bytes()
+}
+
 // URLEscape escape the given URL.
-// If resolveReference is set true:
-//  1. unescape punctuations
-//  2. resolve numeric references
-//  3. resolve entity references
+// If resolveReference is set true, backslash escaped punctuations are unescaped and
+// numeric and entity references are resolved (in one pass).
 //
 // URL encoded values (%xx) are kept as is.
 func URLEscape(v []byte, resolveReference bool) []byte {
 	if resolveReference {
-		v = UnescapePunctuations(v)
-		v = ResolveNumericReferences(v)
-		v = ResolveEntityNames(v)
+		v = unescapeAndResolve(v)
 	}
 	cob := NewCopyOnWriteBuffer(v)
 	limit := len(v)
